@@ -31,7 +31,7 @@ def run(eng, R):
     R.rule("P-sum", "without shared errors every member contributes exactly one cost argument (an alias of its own cost node) and the multi cost is their plain sum; "
                     "the log-determinant node is the sum of the members' log-determinants", 6)
     R.rule("P-part", "with shared errors the members are partitioned by `is_chi2`: chi2 members enter the concatenated data / model / covariance nodes (one data-index "
-                     "slot each), all other members keep their own cost argument; the shared cost and the constraint cost of the sharing members are added once", 8)
+                     "slot each), all other members keep their own cost argument; the shared cost and the constraint cost of the sharing members are added once", 6)
     R.rule("P-par", "same-named parameters are one node: every combined parameter node is added to the multi graph and replaces the node of that name in every member "
                     "that has it", 3)
     R.rule("B-diag", "concatenation and diagonal blocks use the consecutive edges _data_indices[j] : _data_indices[j+1] for rows and columns alike", 3)
@@ -95,15 +95,17 @@ def run(eng, R):
     sh = get_func(p, MF, "_init_shared_error_nodes")
     ssrc = _txt(sh.node)
     loops = _loops_over(sh.node, "enumerate(self._fits)")
-    part = [l for l in loops if any(isinstance(s, ast.If) and "is_chi2" in _txt(s.test) for s in l.body)]
+    # the partition loop: one if/else per member whose else-branch keeps the member's own cost argument
+    part = [l for l in loops if any(isinstance(s, ast.If) and s.orelse and "_cost_names" in _txt(ast.Module(body=s.orelse, type_ignores=[])) for s in l.body)]
     ok = len(part) == 1
     R.ob("P-part", "_init_shared_error_nodes:partition loop", ok, (sh.file, sh.lineno), "one loop over all members must partition them by is_chi2")
     if ok:
         lp = part[0]
         iv, fv = lp.target.elts[0].id, lp.target.elts[1].id
-        i = [s for s in lp.body if isinstance(s, ast.If) and "is_chi2" in _txt(s.test)][0]
+        i = [s for s in lp.body if isinstance(s, ast.If) and s.orelse and "_cost_names" in _txt(ast.Module(body=s.orelse, type_ignores=[]))][0]
         R.ob("P-part", "_init_shared_error_nodes:partition test", _txt(i.test) == "%s._cost_function.is_chi2" % fv and len(lp.body) == 1, (sh.file, i.lineno),
-             "the partition must be exactly `if member cost is chi2: joint part else: own cost argument`")
+             "the partition must be exactly `if member cost is chi2: joint part else: own cost argument` (found `%s`): a member whose cost is not a chi2 but which passes the test "
+             "is absorbed into the shared chi2 and loses its own cost" % _txt(i.test))
         chi = _txt(ast.Module(body=i.body, type_ignores=[]))
         oth = _txt(ast.Module(body=i.orelse, type_ignores=[]))
         ok1 = "_fit_index_to_data_index[%s] = len(_data_indices) - 1" % iv in chi and "_data_indices.append(_data_indices[-1] + %s.data_size)" % fv in chi
@@ -146,6 +148,57 @@ def run(eng, R):
             and ssrc.count("_cost_names.append('member_constraint_cost')") == 1
     R.ob("P-part", "_init_shared_error_nodes:member constraints", ok, (sh.file, sh.lineno),
          "the shared cost function carries no constraint term: the constraint cost of every sharing member (its own parameter values and constraints) must enter the multi cost once")
+
+    # every member class that can carry a chi2 cost provides the nodes the joint part aliases (a missing node is Alias(ref=None): AttributeError when the first shared
+    # error is added to *any* members of the multi-fit)
+    from ..consteval import nexus_model
+
+    R.rule("P-nodes", "every fit class whose registry offers a chi2 cost function has the graph nodes that the chi2 branch of the partition aliases", 3)
+    if part:
+        lp = part[0]
+        i = [s_ for s_ in lp.body if isinstance(s_, ast.If) and s_.orelse][0]
+        needed = set()
+        for c in ast.walk(ast.Module(body=i.body, type_ignores=[])):
+            if isinstance(c, ast.Call) and isinstance(c.func, ast.Attribute) and c.func.attr == "get" and _txt(c.func.value).endswith("._nexus") and c.args and common.const_str(c.args[0]):
+                conds = common.guard_conditions_inside(i, c)
+                if any("isinstance" in _txt(t) for t, pol in conds):
+                    continue  # only for the class tested there
+                needed.add(common.const_str(c.args[0]))
+        if not needed:
+            raise AnalysisError("_init_shared_error_nodes: aliased member nodes not found")
+        for cn in ("XYFit", "IndexedFit", "HistFit", "UnbinnedFit"):
+            cls = p.find_class(cn)
+            reg = cls.lookup("_STRING_TO_COST_FUNCTION")
+            chi2_capable = False
+            if reg and reg[0] == "const" and isinstance(reg[1], ast.Name):
+                # follow the imports from the module that defines the class constant to the dictionary literal
+                owner = next((k for k in cls.mro if "_STRING_TO_COST_FUNCTION" in k.consts), cls)
+                mod, name = owner.module, reg[1].id
+                d = None
+                for _ in range(4):
+                    if name in mod.consts and isinstance(mod.consts[name], ast.Dict):
+                        d = mod.consts[name]
+                        break
+                    imp = mod.imports.get(name)
+                    if not imp:
+                        break
+                    nxt = p.modules.get(imp[0]) or next((m for m in p.modules.values() if m.name == imp[0]), None)
+                    if nxt is None:
+                        break
+                    mod, name = nxt, (imp[1] or name)
+                    if nxt.is_package and name not in nxt.consts and name not in nxt.imports:
+                        # star re-exports of a package: look into its cost module
+                        sub = next((m for m in p.modules.values() if m.name == nxt.name + ".cost"), None)
+                        if sub is not None:
+                            mod = sub
+                if d is None:
+                    raise AnalysisError("cost function registry of %s not resolved" % cn)
+                chi2_capable = any("Chi2" in _txt(v) for v in d.values)
+            G, _tr = nexus_model(p, cls)
+            missing = sorted(n for n in needed if n not in G.nodes)
+            R.ob("P-nodes", "%s" % cn, not (chi2_capable and missing), (cls.module.relpath, 0),
+                 "%s offers a chi2 cost function but has no node(s) %s: with such a member, adding the first shared error to any members of a MultiFit raises AttributeError "
+                 "('NoneType' object has no attribute 'add_parent')" % (cn, missing))
 
     # ---------------------------------------------------------------- B-diag
     c1 = _nested(sh, "_combine_1d_property")
